@@ -113,12 +113,14 @@ impl Prop for C11 {
                 (r.map_err(|e| format!("{}", e)), observe_graph(&g, &ti))
             });
             let never = CountingFlag::new(u64::MAX);
+            let counted_started = std::time::Instant::now();
             let counted = catch(|| {
                 let config = ExecutionConfig::new(&functions, &vars).lazy(lazy);
                 let mut g = Graph::new();
                 let r = file.execute_into(&mut g, &tree, &case.source, &config, &never);
                 (r.map_err(|e| format!("{}", e)), observe_graph(&g, &ti))
             });
+            let full_run_seconds = counted_started.elapsed().as_secs_f64();
             out.evals(2);
             let (plain, counted) = match (plain, counted) {
                 (Ok(a), Ok(b)) => (a, b),
@@ -191,6 +193,20 @@ impl Prop for C11 {
                 v.dedup();
                 v
             };
+            // a slow program gets fewer cancellation points (this only limits what is explored;
+            // the harness's own watchdog is CPU time per case)
+            let mut ks = ks;
+            let affordable = ((40.0 / full_run_seconds.max(1e-4)) as usize).max(40);
+            if ks.len() > affordable {
+                let step = ks.len() as f64 / affordable as f64;
+                let mut picked: Vec<u64> = (0..affordable).map(|i| ks[((i as f64) * step) as usize]).collect();
+                picked.extend(ks.iter().take(15));
+                picked.push(*ks.last().unwrap());
+                picked.sort();
+                picked.dedup();
+                ks = picked;
+                out.feat(&format!("slow_program_cancellation_points_subsampled:{}", mode));
+            }
             let mut prev: Option<(u64, OGraph)> = None;
             for k in ks {
                 let flag = CountingFlag::new(k);
